@@ -121,6 +121,32 @@ def cdiff(ctx):
     ctx.ob('CDIFF', loc, 'component i of the result is ∂f/∂x_i in the limit shift→0 (generic cubic, 2 points × 3 coordinates)', not bad0,
            'wrong at (point, component) %s' % bad0, node=fn)
     ctx.ob('CDIFF', loc, 'error has no term linear in shift (second-order accurate)', not bad1, 'linear error term at %s' % bad1, node=fn)
+    # points on a grid: coordinates of shape (2, 3, 2) (and a square (2, 2, 2) grid, where a swap of the leading axes keeps the shape)
+    for shape in ((2, 3, 2), (2, 2, 2)):
+        xg = symarray('y', shape)
+        m = shape[-1]
+
+        def fg(c):
+            c = np.asarray(c, dtype=object)
+            return np.einsum('i,...i->...', a[:m], c) + np.einsum('ij,...i,...j->...', q[:m, :m], c, c)
+        try:
+            live = [p for p in SymEval(module_aliases(ctx.mod(CD))).run_fn(fn, [fg, xg, sh], {}) if p.done == 'return']
+        except WouldRaise as e:
+            ctx.ob('CDIFF', loc, 'coordinates of shape %s (points on a grid) are accepted' % (shape,), False, str(e), node=fn, key='cdiff grid accepts %s' % (shape,))
+            continue
+        except Opaque as e:
+            raise AnalysisError('central_difference on a %s grid: %s' % (shape, e))
+        ctx.need(len(live) == 1, 'central_difference does not reduce to one path (grid)')
+        gg = live[0].ret
+        ok = hasattr(gg, 'shape') and tuple(gg.shape) == shape
+        if ok:
+            for idx in np.ndindex(*shape[:-1]):
+                fx = fg(xg[idx])
+                for i in range(m):
+                    if sp.expand(sp.limit(sp.expand(gg[idx + (i,)] - sp.diff(fx, xg[idx + (i,)])), sh, 0)) != 0:
+                        ok = False
+        ctx.ob('CDIFF', loc, 'coordinates of shape %s (points on a grid): the gradient has the shape of coord and entry [..., i] is ∂f/∂x_i at that grid point (leading axes in the caller\'s order)' % (shape,), bool(ok),
+               'shape %s' % (getattr(gg, 'shape', None),), node=fn, key='cdiff grid %s' % (shape,))
 
 
 def default_feasible(ctx):
@@ -202,12 +228,23 @@ def step_model(ctx):
     for tag, climb in (('plain step', None), ('climbing step, image 2', 2)):
         made, icalls = [], []
 
+        glog = []
+
         def grad(coord, **k):
             return np.array([[G(row, j) for j in range(2)] for row in np.asarray(coord, dtype=object)], dtype=object)
 
+        def GFN(efn, coord, **k):
+            glog.append((efn, dict(k)))
+            return grad(coord)
+
+        def midpoint(rate, c0, timestep, **kw):
+            # a two-stage integrator: the second stage evaluates the rate away from the starting images, so a rate that ignores its argument shows
+            c0 = np.asarray(c0, dtype=object)
+            return c0 + timestep * rate(c0 + timestep * rate(c0, **kw) / 2, **kw)
+
         def integ(rate, coord, timestep, **kw):
             icalls.append((np.array(coord, dtype=object), timestep, dict(kw)))
-            return np.asarray(coord, dtype=object) + timestep * rate(np.asarray(coord, dtype=object), **kw)
+            return midpoint(rate, coord, timestep, **kw)
 
         def mk(coord, energyfxn=None, gradientfxn='cdiff', gradientkwargs=None, integratorfxn='rk', **extra):
             o = SymObj(cls, {'coord': np.asarray(coord, dtype=object), 'energyfxn': energyfxn, 'gradientfxn': gradientfxn, 'gradientkwargs': gradientkwargs if gradientkwargs is not None else {},
@@ -224,8 +261,8 @@ def step_model(ctx):
                 return np.array([[sp.Function('spl%d' % j)(xi) for j in range(2)] for xi in np.ravel(x)], dtype=object)
         splines = []
         tang = symarray('tau', (4, 2), real=True)
-        selfobj = SymObj(cls, {'coord': c.copy(), 'energyfxn': 'EFN', 'gradientfxn': 'GFN', 'gradientkwargs': {'shift': 'SHIFT'}, 'integratorfxn': integ, 'grad_energy': grad, 'unittangent': tang,
-                               'default_timestep': sp.Symbol('h0', positive=True)}, 'self')
+        selfobj = SymObj(cls, {'coord': c.copy(), 'energyfxn': 'EFN', 'gradientfxn': GFN, 'gradientkwargs': {'shift': 'SHIFT'}, 'integratorfxn': integ, 'unittangent': tang,
+                               'default_timestep': sp.Symbol('h0', positive=True)}, 'self', mro=(ctx.fn(BP, 'BasePath'),))
         ev = SymEval(aliases)
         ev.globals = {'ISMPath': mk, 'CubicSpline': lambda a, y: (splines.append(Spline(a, y)) or splines[-1]), 'aslist': lambda v: list(v) if isinstance(v, (list, tuple)) else ([int(x) for x in np.ravel(v)] if is_arr(v) else [v])}
         ev.np_override = {'numpy.linspace': lambda a, b, n_: arr([a + (b - a) * sp.Rational(i, int(n_) - 1) for i in range(int(n_))]), 'numpy.any': lambda v: False}
@@ -235,18 +272,20 @@ def step_model(ctx):
             raise AnalysisError('ISMPath.step on the model path (%s): %s' % (tag, e))
         ctx.need(len(r) == 1, 'ISMPath.step does not reduce to one path (%s)' % tag)
         out = r[0].ret
-        g = grad(c)
-        want_i = c - h * g
+        want_i = midpoint(lambda cc: -grad(cc), c, h)
         if climb is not None:
-            dot = sum(g[climb, j] * tang[climb, j] for j in range(2))
+            def climb_w(cc, t):
+                g_ = grad(cc)
+                return np.array([-g_[r_] + 2 * sum(g_[r_, j] * t[r_, j] for j in range(2)) * t[r_] for r_ in range(len(g_))], dtype=object)
             want_i = want_i.copy()
-            want_i[climb] = c[climb] + h * (-g[climb] + 2 * dot * tang[climb])
+            want_i[climb] = midpoint(lambda cc: climb_w(cc, tang[[climb]]), c[[climb]], h)[0]
         inter = made[0] if made else None
         ok = inter is not None and equal(inter.attrs['coord'], want_i)
-        ctx.ob('STRING-STEP', loc, '%s: images are advanced by the integrator from their own coordinates along -grad E%s with the given timestep' % (tag, '' if climb is None else ' (the climbing image along -grad E + 2 (grad E·τ) τ with its own tangent)'),
-               bool(ok), node=step, key='model advance ' + tag)
-        ok = isinstance(out, SymObj) and out is made[-1] and len(made) == 2 and out.attrs['energyfxn'] == 'EFN' and out.attrs['gradientfxn'] == 'GFN' and out.attrs['gradientkwargs'] == {'shift': 'SHIFT'} \
-            and inter.attrs['energyfxn'] == 'EFN' and inter.attrs['gradientfxn'] == 'GFN' and inter.attrs['gradientkwargs'] == {'shift': 'SHIFT'}
+        ctx.ob('STRING-STEP', loc, '%s: images are advanced by the integrator from their own coordinates along -grad E%s with the given timestep, the rate being evaluated at the coordinates the integrator asks about at every stage' %
+               (tag, '' if climb is None else ' (the climbing image along -grad E + 2 (grad E·τ) τ with its own tangent)'), bool(ok), node=step, key='model advance ' + tag)
+        ctx.ob('STRING-STEP', loc, '%s: every gradient is taken of the path\'s energy function with the path\'s gradient settings' % tag, bool(glog) and all(e_ == 'EFN' and k_ == {'shift': 'SHIFT'} for e_, k_ in glog), node=step, key='model gradient ' + tag)
+        ok = isinstance(out, SymObj) and out is made[-1] and len(made) == 2 and out.attrs['energyfxn'] == 'EFN' and out.attrs['gradientfxn'] is GFN and out.attrs['gradientkwargs'] == {'shift': 'SHIFT'} \
+            and inter.attrs['energyfxn'] == 'EFN' and inter.attrs['gradientfxn'] is GFN and inter.attrs['gradientkwargs'] == {'shift': 'SHIFT'}
         ctx.ob('STRING-STEP', loc, '%s: the returned path evaluates energies and gradients with the functions and gradient settings of the path the step was taken from' % tag, bool(ok),
                'returned path: energy %s, gradient %s %s' % ((out.attrs.get('energyfxn'), out.attrs.get('gradientfxn'), out.attrs.get('gradientkwargs')) if isinstance(out, SymObj) else (None, None, None)), node=step, key='model settings ' + tag)
         ok = len(splines) == 1 and inter is not None and equal(np.asarray(splines[0].y, dtype=object), inter.attrs['coord']) and equal(np.asarray(splines[0].a, dtype=object), inter.attrs['arccoord'])
@@ -273,7 +312,7 @@ def relax_model(ctx):
     D = np.array([[R(0), R(1)], [R(0), R(0)], [R(0), R(-1, 2)]], dtype=object)
     EN = [0, 2, 2, 1, 3, 2, 5, 4, 0]      # a plateau (not a maximum), two strict interior maxima at 4 and 6
 
-    def scenario(relaxsteps, climbsteps, tolerance, climbpoints):
+    def scenario(relaxsteps, climbsteps, tolerance, climbpoints, EN=EN):
         calls = []
         paths = {}
 
@@ -306,6 +345,14 @@ def relax_model(ctx):
         ok = got == want and all(ts == 1 for k, ts, ci in calls) and ret is paths[len(want)]
         ctx.ob('STRING-STEP', loc, '%s: relaxation steps do not climb, climbing steps pass the strict interior energy maxima of the relaxed string (at most `climbpoints`, end images never), each step starts from the path the '
                'previous one returned, a phase stops when the largest image displacement per unit time falls below the tolerance, and the last path is returned' % tag, bool(ok), 'steps taken %s' % got, node=relax, key='relax ' + tag)
+
+
+    # a string whose end images are still uphill of their neighbours when climbing starts (the ends relax last): an end is never a climbing image
+    for tag, en, cp, want in (('both ends above their neighbours, one climbing point', [3, 1, 4, 1, 2], 1, [(0, [2]), (1, [2])]), ('first end above its neighbour, room for more climbing points than there are maxima', [5, 1, 2, 1, 0], 3, [(0, [2]), (1, [2])]),
+                              ('last end the highest image', [0, 1, 3, 2, 6], 2, [(0, [2]), (1, [2])])):
+        calls, ret, paths = scenario(0, 2, R(0), cp, EN=en)
+        got = [(k, ci) for k, ts, ci in calls]
+        ctx.ob('STRING-STEP', loc, '%s: only interior images that are higher than both neighbours climb (an end image stays a basin end however high it still is)' % tag, got == want, 'steps taken %s' % got, node=relax, key='relax ends ' + tag[:30])
 
 
 def relax_criterion(ctx):
@@ -352,7 +399,7 @@ def relax_criterion(ctx):
 
 def float_buffers(ctx):
     """gradients and tangents are written into buffers; the buffers are float for coordinates given as whole numbers too"""
-    dtypeflow.float_buffers(ctx, 'FLOAT-BUFFERS', CD, 'central_difference', floor=1, what='the difference quotients')
+    dtypeflow.float_buffers(ctx, 'FLOAT-BUFFERS', CD, 'central_difference', floor=1, what='the difference quotients', none_ok=True)
     base = dtypeflow.class_attr_types(ctx.fn('atomman/mep/BasePath.py', 'BasePath'))
     dtypeflow.float_buffers(ctx, 'FLOAT-BUFFERS', ISM, 'ISMPath.unittangent', floor=3, attrs=base, what='the unit difference vectors')
 
